@@ -37,6 +37,7 @@ def handle (line : String) : String :=
   | "inline" :: rest => Drv.inlineLine rest
   | "inlinex" :: rest => Drv.inlineXLine rest
   | "rx" :: rest => Drv.rxLine rest
+  | "inlinel" :: rest => Drv.inlineLLine rest
   | "delims" :: rest => Drv.delimsLine rest
   | "textjoin" :: rest => Drv.textJoinLine rest
   | "smart" :: rest => Drv.smartLine rest
